@@ -56,6 +56,25 @@ func genC14(g *Gen) error {
 	}
 	t.Call = c14Call
 	g.P("namespace OG.C14\n")
+	// Go's int64 (and time.Duration) arithmetic wraps; time.Time arithmetic (Add / Sub / Before /
+	// After on values built from int64 nanoseconds) does not. Every `+`, `-`, `*` of a translated
+	// function is therefore rendered through wrap64, every Time method exactly (c14WrapArith).
+	var wrapped []*ast.FuncDecl
+	g.P("/-- two's-complement wrap of an integer into the int64 range. -/")
+	g.P("def wrap64 (x : Int) : Int := (x + 9223372036854775808) %% 18446744073709551616 - 9223372036854775808\n")
+	for _, f := range [][2]string{{"engine/shard.go", "shard.IsExpired"}, {"engine/shard.go", "shard.IsTierExpired"},
+		{"engine/engine.go", "EngineImpl.nilShardIsExpired"}, {"coordinator/context.go", "injestionCtx.checkDBRP"},
+		{"coordinator/points_writer.go", "PointsWriter.routeAndMapOriginRows"}, {"lib/util/lifted/influx/meta/shardinfo.go", "ShardGroupInfo.Overlaps"},
+		{"engine/index/tsi/index_builder.go", "IndexBuilder.SetDuration"}, {"engine/index/tsi/index_builder.go", "IndexBuilder.Expired"},
+		{"engine/index/tsi/index_builder.go", "IndexBuilder.ExpiredCache"}, {"engine/index/tsi/index_builder.go", "IndexBuilder.IsTierExpired"},
+		{"lib/metaclient/meta_client_impl.go", "Client.GetExpiredShards"}, {"lib/metaclient/meta_client_impl.go", "Client.GetExpiredIndexes"}} {
+		fd, err := g.Func(f[0], f[1])
+		if err != nil {
+			return err
+		}
+		c14WrapArith(fd.Body)
+		wrapped = append(wrapped, fd)
+	}
 	if err := t.Method("engine/shard.go", "shard.IsExpired", "shardIsExpired", "(wallNow duration endTime : Int)", "Bool"); err != nil {
 		return err
 	}
@@ -154,6 +173,10 @@ func genC14(g *Gen) error {
 		return err
 	}
 	g.P("end OG.C14\n")
+	// the source shapes below are printed from the same syntax trees: undo the rewrite first
+	for _, fd := range wrapped {
+		c14UnwrapArith(fd.Body)
+	}
 
 	// --- shapes the hand-written model transcribes ------------------------------------
 	g.GenNS()
@@ -242,13 +265,26 @@ func c14Call(fun, method, recv string, args []string) string {
 		if len(args) == 1 {
 			return args[0]
 		}
+	case "w64add":
+		if len(args) == 2 {
+			return "(wrap64 (" + args[0] + " + " + args[1] + "))"
+		}
+	case "w64sub":
+		if len(args) == 2 {
+			return "(wrap64 (" + args[0] + " - " + args[1] + "))"
+		}
+	case "w64mul":
+		if len(args) == 2 {
+			return "(wrap64 (" + args[0] + " * " + args[1] + "))"
+		}
 	}
 	switch method {
 	case "UTC":
 		if len(args) == 0 {
 			return recv
 		}
-	case "Nanoseconds":
+	case "Nanoseconds", "UnixNano":
+		// an int64 count of nanoseconds: the value itself (times are built from int64 nanoseconds)
 		if len(args) == 0 {
 			return recv
 		}
@@ -343,4 +379,118 @@ func c14StripLogs(g *Gen, b *ast.BlockStmt) string {
 		return out
 	}
 	return g.Src(&ast.BlockStmt{List: strip(b.List)})
+}
+
+// c14WrapArith rewrites, in place, every binary +, -, * of a function body into a call
+// w64add / w64sub / w64mul (rendered through wrap64 by c14Call): Go integer arithmetic wraps.
+// Method calls on time.Time (Add, Sub, Before, After) are not touched: they are exact.
+func c14WrapArith(n ast.Node) {
+	var rw func(e ast.Expr) ast.Expr
+	rw = func(e ast.Expr) ast.Expr {
+		switch x := e.(type) {
+		case *ast.BinaryExpr:
+			x.X, x.Y = rw(x.X), rw(x.Y)
+			name := ""
+			switch x.Op {
+			case token.ADD:
+				name = "w64add"
+			case token.SUB:
+				name = "w64sub"
+			case token.MUL:
+				name = "w64mul"
+			}
+			if name != "" {
+				return &ast.CallExpr{Fun: ast.NewIdent(name), Args: []ast.Expr{x.X, x.Y}}
+			}
+			return x
+		case *ast.ParenExpr:
+			x.X = rw(x.X)
+			return x
+		case *ast.UnaryExpr:
+			x.X = rw(x.X)
+			return x
+		case *ast.CallExpr:
+			for i := range x.Args {
+				x.Args[i] = rw(x.Args[i])
+			}
+			if se, ok := x.Fun.(*ast.SelectorExpr); ok {
+				se.X = rw(se.X)
+			}
+			return x
+		case *ast.SelectorExpr:
+			x.X = rw(x.X)
+			return x
+		}
+		return e
+	}
+	ast.Inspect(n, func(m ast.Node) bool {
+		switch s := m.(type) {
+		case *ast.IfStmt:
+			s.Cond = rw(s.Cond)
+		case *ast.ReturnStmt:
+			for i := range s.Results {
+				s.Results[i] = rw(s.Results[i])
+			}
+		case *ast.AssignStmt:
+			for i := range s.Rhs {
+				s.Rhs[i] = rw(s.Rhs[i])
+			}
+		}
+		return true
+	})
+}
+
+// c14UnwrapArith undoes c14WrapArith (the source texts emitted as facts are the code's own).
+func c14UnwrapArith(n ast.Node) {
+	var rw func(e ast.Expr) ast.Expr
+	rw = func(e ast.Expr) ast.Expr {
+		switch x := e.(type) {
+		case *ast.CallExpr:
+			for i := range x.Args {
+				x.Args[i] = rw(x.Args[i])
+			}
+			if se, ok := x.Fun.(*ast.SelectorExpr); ok {
+				se.X = rw(se.X)
+			}
+			if id, ok := x.Fun.(*ast.Ident); ok && len(x.Args) == 2 {
+				switch id.Name {
+				case "w64add":
+					return &ast.BinaryExpr{X: x.Args[0], Op: token.ADD, Y: x.Args[1]}
+				case "w64sub":
+					return &ast.BinaryExpr{X: x.Args[0], Op: token.SUB, Y: x.Args[1]}
+				case "w64mul":
+					return &ast.BinaryExpr{X: x.Args[0], Op: token.MUL, Y: x.Args[1]}
+				}
+			}
+			return x
+		case *ast.BinaryExpr:
+			x.X, x.Y = rw(x.X), rw(x.Y)
+			return x
+		case *ast.ParenExpr:
+			x.X = rw(x.X)
+			return x
+		case *ast.UnaryExpr:
+			x.X = rw(x.X)
+			return x
+		case *ast.SelectorExpr:
+			x.X = rw(x.X)
+			return x
+		}
+		return e
+	}
+	ast.Inspect(n, func(m ast.Node) bool {
+		switch s := m.(type) {
+		case *ast.IfStmt:
+			s.Cond = rw(s.Cond)
+		case *ast.ReturnStmt:
+			for i := range s.Results {
+				s.Results[i] = rw(s.Results[i])
+			}
+		case *ast.AssignStmt:
+			for i := range s.Rhs {
+				s.Rhs[i] = rw(s.Rhs[i])
+			}
+		}
+		return true
+	})
 }
